@@ -308,8 +308,9 @@ TEXT["C33"] = {
              "the loop starts a ping only at an instant at which the client is active (invariant over the wrapper + frame lemmas "
              "about cl_step). Refutations with witnesses replayed on the real client in every run: a ping unanswered at sleep time is "
              "retransmitted while asleep (33,2); the loop's ping takes the store slot of an API Ping call, which then fails (33,3). "
-             "Clause (33,1) (PINGREQ at least every max(KeepAlive, RetryDelay) while active and alive) is NOT proved: the monitor "
-             "checks it on the implementation and on the model in every run. The real Client with KeepAlive 1-3 s is compared "
+             "Theorem C33_pingreq_at_least_every_period: in every such history a live active client never goes longer than "
+             "max(KeepAlive, RetryDelay) without a PINGREQ (clause (33,1); invariant tying the monitor to the ticker and to the "
+             "retry timer of the loop's ping; executable side conditions on call identifiers and model fuel). The real Client with KeepAlive 1-3 s is compared "
              "output-by-output with the wrapper model under synctest.",
     "note": COMMON_NOTE + " Partial. Outside the model, nothing stated: a state change while the loop is inside a ping and the channel "
             "already holds an unread change (the sender blocks in notifyStateChange), and Go's select choosing between a pending tick "
